@@ -35,6 +35,20 @@ def _const(arr):
         return SENTINEL
 
 
+def _frame_const(detector):
+    """The number of charges per pixel held in the particle dataframe, if it is the same in every pixel."""
+    geo = detector.geometry
+    fr = detector.charge._frame
+    num = np.asarray(fr["number"], dtype=float)
+    iv = np.floor_divide(np.asarray(fr["position_ver"], dtype=float), geo.pixel_vert_size).astype(int)
+    ih = np.floor_divide(np.asarray(fr["position_hor"], dtype=float), geo.pixel_horz_size).astype(int)
+    if np.any((iv < 0) | (iv >= geo.row) | (ih < 0) | (ih >= geo.col)):
+        return SENTINEL
+    tot = np.zeros((geo.row, geo.col))
+    np.add.at(tot, (iv, ih), num)
+    return _const(tot)
+
+
 def buckets(detector) -> dict:
     """Per bucket: None = empty / uninitialised, else the value of the constant frame it holds."""
     out = {}
@@ -47,15 +61,18 @@ def buckets(detector) -> dict:
     ph = detector.photon
     a = getattr(ph, "_array", None)
     out["photon"] = None if a is None else _const(getattr(a, "values", a))
+    # the charge container holds two pieces of state: the 2-D array and the particle dataframe (read raw: the
+    # public `array` property has a side effect on `_array`)
     ch = detector.charge
     try:
         arr = np.asarray(ch._array)
-        if ch._frame.empty:
-            out["charge"] = None if not np.any(arr) else _const(arr)
-        else:
-            out["charge"] = SENTINEL
+        out["charge"] = None if not np.any(arr) else _const(arr)
     except Exception:  # noqa: BLE001
         out["charge"] = SENTINEL
+    try:
+        out["cframe"] = None if ch._frame.empty else _frame_const(detector)
+    except Exception:  # noqa: BLE001
+        out["cframe"] = SENTINEL
     for b in ("pixel", "signal", "image"):
         a = getattr(getattr(detector, b), "_array", None)
         out[b] = None if a is None else _const(a)
@@ -109,21 +126,117 @@ def add_scene_source(detector):
     detector.scene.add_source(_source())
 
 
-def apply_write(detector, bucket, value, add):
+def _particles_kw(detector, value):
+    """One cluster of `value` electrons at the centre of every pixel."""
+    geo = detector.geometry
+    n = geo.row * geo.col
+    rr, cc = np.meshgrid(np.arange(geo.row), np.arange(geo.col), indexing="ij")
+    z = np.zeros(n)
+    return dict(particle_type="e", particles_per_cluster=np.full(n, float(value)), init_energy=z.copy(),
+                init_ver_position=((rr.reshape(-1) + 0.5) * geo.pixel_vert_size).astype(float),
+                init_hor_position=((cc.reshape(-1) + 0.5) * geo.pixel_horz_size).astype(float),
+                init_z_position=z.copy(), init_ver_velocity=z.copy(), init_hor_velocity=z.copy(),
+                init_z_velocity=z.copy())
+
+
+def _cube(detector, value, dtype=None):
+    import xarray as xr
+
+    geo = detector.geometry
+    return xr.DataArray(np.full((2, geo.row, geo.col), float(value), dtype=np.dtype(dtype or "float64")),
+                        dims=["wavelength", "y", "x"],
+                        coords={"wavelength": [500.0, 600.0]})
+
+
+# the public ways of filling each container (the writer's plan names one per operation)
+HOWS = {
+    "scene": ("add_source",),
+    "photon": ("array", "array_2d", "array_3d", "iadd", "iadd_3d", "array_iadd", "add_op"),
+    "charge": ("array", "particles", "dataframe"),
+    "pixel": ("array", "update", "iadd", "array_iadd", "inplace", "add_op"),
+    "signal": ("array", "update", "iadd", "array_iadd", "inplace", "add_op"),
+    "image": ("array", "update", "iadd", "array_iadd", "inplace", "add_op"),
+}
+
+
+def apply_write(detector, bucket, value, add, how=None, dtype=None):
+    """Fill `bucket` with the constant `value` (or add it to what the bucket holds) through the public way `how`,
+    as an array of `dtype` (default: float64, uint16 for the image)."""
     geo = detector.geometry
     shape = (geo.row, geo.col)
     if bucket == "scene":
         add_scene_source(detector)
-    elif bucket == "charge":
-        detector.charge.add_charge_array(np.full(shape, float(value)))
-    else:
+        return
+    if bucket == "charge":
+        how = how or "array"
+        if how == "array":
+            detector.charge.add_charge_array(np.full(shape, float(value), dtype=np.dtype(dtype or "float64")))
+        elif how == "particles":
+            detector.charge.add_charge(**_particles_kw(detector, value))
+        elif how == "dataframe":
+            from pyxel.data_structure import Charge
+
+            detector.charge.add_charge_dataframe(Charge.create_charges(**_particles_kw(detector, value)))
+        else:
+            raise RuntimeError(f"unknown way of filling charge: {how}")
+        return
+    if how is None:
         vp.write(detector, bucket=bucket, value=value, add=bool(add))
+        return
+    obj = getattr(detector, bucket)
+    cur = getattr(obj, "_array", None)
+    if bucket == "photon":
+        if how in ("array_3d", "iadd_3d"):
+            new = _cube(detector, value, dtype)
+            if how == "iadd_3d":
+                detector.photon += new          # (sets the cube when the container is empty)
+            elif add and cur is not None:
+                obj.array_3d = obj.array_3d + new
+            else:
+                obj.array_3d = new
+            return
+        new = np.full(shape, float(value), dtype=np.dtype(dtype or "float64"))
+        if how == "iadd" or (how == "array_iadd" and cur is None):
+            detector.photon += new
+        elif how == "array_iadd":
+            detector.photon.array += new
+        elif how == "add_op":
+            detector.photon + new               # Photon.__add__ modifies the container
+        elif how == "array_2d":
+            obj.array_2d = (obj.array_2d + new) if (add and cur is not None) else new
+        elif how == "array":
+            obj.array = (obj.array + new) if (add and cur is not None) else new
+        else:
+            raise RuntimeError(f"unknown way of filling photon: {how}")
+        return
+    dt = np.dtype(dtype or ("uint16" if bucket == "image" else "float64"))
+    new = np.full(shape, value, dtype=dt)
+    if how == "array":
+        obj.array = (obj.array + new) if (add and cur is not None) else new
+    elif how == "update":
+        obj.update((obj.array + new) if (add and cur is not None) else new)
+    elif how == "iadd" or (how in ("array_iadd", "inplace") and cur is None):
+        if bucket == "pixel":
+            detector.pixel += new
+        elif bucket == "signal":
+            detector.signal += new
+        else:
+            detector.image += new
+    elif how == "array_iadd":
+        obj.array += new
+    elif how == "inplace":
+        a = obj.array                           # the container's own array, modified in place
+        np.add(a, new, out=a)
+    elif how == "add_op":
+        obj + new                               # ArrayBase.__add__ modifies the container
+    else:
+        raise RuntimeError(f"unknown way of filling {bucket}: {how}")
 
 
 def writer(detector, plan=None):
-    """plan[i] = list of [bucket, value, add] applied at step i (indexed by detector.pipeline_count)."""
+    """plan[i] = list of [bucket, value, add(, how(, dtype))] applied at step i (indexed by detector.pipeline_count)."""
     EXEC[0] += 1
     i = int(detector.pipeline_count)
     ops = plan[i] if plan is not None and 0 <= i < len(plan) else []
-    for bucket, value, add in ops:
-        apply_write(detector, bucket, value, add)
+    for op in ops:
+        apply_write(detector, *op)
